@@ -1384,15 +1384,19 @@ def fits_quota(call, plain, q, l):
     """Every value the evaluation of the one-call expression handles - the data document, each argument, the
     result and its elements - is within the memory quota, and every collection within the iterator limit."""
     from yaql.language import utils as yutils
-    _, data = expr_of(call)
+    expr, data = expr_of(call)
     vals = [yutils.convert_input_data(data)] + [yutils.convert_input_data(v) for v in data.values()]
-    if plain[0] == "str":
-        vals.append(plain[1])
-        if call[0] == "characters":
-            vals.append(tuple(plain[1]))
-    elif plain[0] == "strs":
-        vals.append(tuple(plain[1]))
-    elif plain[0] in ("foreign", "err"):
+    if plain[0] in ("foreign", "err"):
+        return False
+    # the sizes the IMPLEMENTATION sees on a quota-free engine: the raw object the function returns (a tuple of
+    # characters for characters()/toCharArray(), ... - not the model's canonical form) and the finalised value,
+    # which is itself the result of a protocol call (#finalize) and is built as an over-allocated list
+    try:
+        raw = ev_on(RAW_CFG, expr, data)
+        if hasattr(raw, "__next__"):
+            raw = tuple(raw)
+        vals += [raw, ev(expr, data)]
+    except Exception:
         return False
     sizes, lens = [], []
     for v in vals:
